@@ -90,7 +90,7 @@ func (x *Exec) step(fr *Frame, ins ssa.Instruction, st *State) []alt {
 		if v.Op == "struct" && len(v.Args) == stt.NumFields() {
 			return one(st, v.Args[ins.Field])
 		}
-		return one(st, mk("fieldof", stt.Field(ins.Field).Name(), ins.Type(), v))
+		return one(st, mk("fieldof", fname(stt.Field(ins.Field)), ins.Type(), v))
 	case *ssa.IndexAddr:
 		base := x.val(fr, ins.X)
 		idx := x.val(fr, ins.Index)
